@@ -139,7 +139,13 @@ func (os *ObjectStream) parseHeader() error {
 	headerData := os.decoded[:os.first]
 	parser := NewParser(bytes.NewReader(headerData))
 
-	os.offsets = make([]objectStreamOffset, 0, os.n)
+	// /N comes from the file: every pair needs at least four bytes of header, so
+	// do not reserve more entries than the header could possibly hold
+	capacity := os.n
+	if capacity > len(headerData)/4+1 {
+		capacity = len(headerData)/4 + 1
+	}
+	os.offsets = make([]objectStreamOffset, 0, capacity)
 
 	for i := 0; i < os.n; i++ {
 		// Parse object number
@@ -201,10 +207,11 @@ func (os *ObjectStream) GetObjectByIndex(index int) (Object, int, error) {
 		endOffset = len(os.decoded)
 	}
 
-	if offset >= len(os.decoded) {
-		return nil, 0, fmt.Errorf("object offset %d exceeds decoded data length %d", offset, len(os.decoded))
+	if offset < 0 || offset >= len(os.decoded) {
+		return nil, 0, fmt.Errorf("object offset %d outside decoded data of length %d", offset, len(os.decoded))
 	}
-	if endOffset > len(os.decoded) {
+	if endOffset > len(os.decoded) || endOffset <= offset {
+		// offsets that are not ascending: read up to the end of the data
 		endOffset = len(os.decoded)
 	}
 
